@@ -101,6 +101,11 @@ def filterMapSt {σ α β : Type} (f : σ → α → σ × Option β) (s : σ) :
     | some b => b :: filterMapSt f (f s x).1 xs
     | none => filterMapSt f (f s x).1 xs
 
+/-- `iter.tuple_windows::<(T, T)>()`: the adjacent pairs -/
+def windows : List Rat → List (Rat × Rat)
+  | a :: b :: t => (a, b) :: windows (b :: t)
+  | _ => []
+
 /-- `iter.enumerate()`: `(index, item)` pairs from 0 -/
 def enumerate {α : Type} (l : List α) : List (Nat × α) := (List.range l.length).zip l
 
